@@ -19,6 +19,10 @@ CLAIMED = {
             "list/hash/set', 'one type per key with matching payload', dictionary placement invariant, no panic; RENAME/RENAMENX/COPY[REPLACE] on every type incl. "
             "source = destination carrying value and expiry; DEL/UNLINK/EXISTS/TOUCH/TYPE/DBSIZE/KEYS/RANDOMKEY against the set of live keys; SORT; redisGlob against "
             "Redis' stringmatchlen for all patterns <= 3 (4) characters over the glob alphabet", "5/C06"),
+    "C07": ("bounded symbolic model checking with the clock as a harness variable: for each of 147 command templates and each type of the key, the reply and resulting "
+            "state with the key expired-but-still-stored equal those with the key missing (and read commands never list it); per-command TTL rules (30 commands: in-place "
+            "modifiers keep, replacing commands clear); EXPIRE/PEXPIRE/EXPIREAT/PEXPIREAT x NX/XX/GT/LT with a symbolic argument (|n| < 3000 units around now) and exact "
+            "TTL/PTTL/EXPIRETIME/PEXPIRETIME read-back; visibility 1 ms before / after the deadline; unrepresentable TTLs are refused", "5/C07"),
     "C09": ("bounded symbolic model checking of transaction programs (1..4 steps quick, 5 thorough; each step a symbolic choice among MULTI, EXEC, DISCARD, WATCH, UNWATCH, a "
             "valid write, a command failing at run time, commands rejected at queue time (unknown name, bad arity) and a blocking pop) through the real dispatcher against the "
             "multi.c state machine: reply class of every step, queue/normal mode, no effect while queueing (observer connection between steps), one reply per queued command, "
